@@ -363,6 +363,7 @@ def replay(ctx, case):
     k = case.get("kind")
     if k == "millis": check_millis(ctx, case["v"]); ctx.ev()
     elif k == "reencode": run_reencode(ctx, case["file"])
+    elif "part" in ctx.shard: run(ctx, ctx.shard)
     elif k == "transition": run_transitions(ctx, 20000)
     elif k in ("yearoffset", "recurrence", "altmap", "precalc", "fixed"): run_composites(ctx)
     else: run_prims(ctx)
